@@ -226,6 +226,10 @@ enum Sect {
     /// exactly linear (and exactly constant) windows off the dyadic grid, windows of 20..64:
     /// an internal assertion about a ratio that is 1 in exact arithmetic is tightest there
     Lines,
+    /// two-level chains whose inner view (Roc over a stream that sits at 0) delivers nothing for about
+    /// 2^16 or 2^17 updates and then starts: a counter of update() calls that stands in for "the
+    /// window must be full by now" is wrong exactly there
+    Late,
 }
 fn sections(cfg: &Cfg) -> Vec<(Sect, u64)> {
     let nn = ns(cfg).len() as u64;
@@ -239,6 +243,7 @@ fn sections(cfg: &Cfg) -> Vec<(Sect, u64)> {
         (Sect::Chains, if q { 4_000 } else { 2_000_000 }),
         (Sect::Long, nn * var),
         (Sect::Lines, all_unary(3).len() as u64 * if q { 160 } else { 1200 }),
+        (Sect::Late, var * if q { 1 } else { 8 }),
     ]
 }
 
@@ -321,6 +326,19 @@ fn dispatch<T: Scalar>(cfg: &Cfg, sect: Sect, j: u64, rng: &mut Rng, out: &mut T
             let pos = k == BinK::Divide || catalogue::spec_needs_positive(&spec);
             let xs = stream(class, n1.max(n2), rng.usize(0, 120), pos, rng);
             run_single::<T>(&spec, &xs, rng, out, &format!("view/{:?}", k));
+        }
+        Sect::Late => {
+            let no = *rng.pick(&[2usize, 3, 8, 20]);
+            let outer = catalogue::bump_n(variants(no)[(j % var) as usize], no);
+            let zeros = *rng.pick(&[65_536usize, 131_072]) - rng.usize(0, no + 6);
+            let mut xs = vec![0.0; zeros];
+            let mut x = 0.0f64;
+            for _ in 0..(4 * no + 40) {
+                x += 0.5 + rng.range(0, 64) as f64 / 16.0;
+                xs.push(x);
+            }
+            out.count("chains_whose_inner_view_starts_delivering_after_2^16_or_2^17_updates", 1);
+            run_chain::<T>(outer, Kind::Roc(2), &xs, rng, out);
         }
         Sect::Chains => {
             let no = rng.usize(1, 16);
